@@ -695,11 +695,12 @@ CHECKS["C03"]["level_note"] = CHECKS["C03"]["level_note"].replace("the bundle bu
 CHECKS["C19"]["groups"].append(
     slug_group("odd-trees", ["harness/slug/unpack.go", "harness/slug/pack.go"],
                quick=[{"id": "deep-o%d" % o, "entry": "HarnessC19DeepTree", "params": {"levels": 17, "opts": o}, "no_panic": True, "no_hang": True, "max_steps": 20000000} for o in (0, 1, 2)]
-               + [{"id": "ext-cycle", "entry": "HarnessC19ExtCycle", "no_panic": True, "no_hang": True, "max_steps": 3000000, "shards": 4, "_w": 30}],
+               + [{"id": "ext-cycle", "entry": "HarnessC19ExtCycle", "no_panic": True, "no_hang": True, "max_steps": 3000000, "shards": 4, "_w": 30}]
+               + [{"id": "special-o%d" % o, "entry": "HarnessC19Special", "params": {"opts": o}, "no_panic": True, "no_hang": True} for o in (0, 1, 2, 3)],
                thorough=[{"id": "deep-o%d" % o, "entry": "HarnessC19DeepTree", "params": {"levels": 18, "opts": o}, "no_panic": True, "no_hang": True, "max_steps": 20000000} for o in (0, 1, 2, 3)]
                + [{"id": "ext-cycle", "entry": "HarnessC19ExtCycle", "no_panic": True, "no_hang": True, "max_steps": 3000000, "shards": 4}],
-               reach=["deep-tree-walked", "ext-cycle-packed"], sample_every=1, isolated=True))
-CHECKS["C19"]["bounds"]["quick"] += "; Pack over a chain of 17 nested directories with 255-byte names (the absolute path outgrows PATH_MAX, so the walk lists an entry it cannot stat; vfs model enforces PATH_MAX), 3 option sets; Pack with dereferencing into a two-directory link cycle outside the tree (3 x 4 x 5 link spellings, with and without ignore processing)"
+               reach=["deep-tree-walked", "ext-cycle-packed", "special-packed"], sample_every=1, isolated=True))
+CHECKS["C19"]["bounds"]["quick"] += "; Pack over a chain of 17 nested directories with 255-byte names (the absolute path outgrows PATH_MAX, so the walk lists an entry it cannot stat; vfs model enforces PATH_MAX), 3 option sets; Pack with dereferencing into a two-directory link cycle outside the tree (3 x 4 x 5 link spellings, with and without ignore processing); fifos: in the tree, as the rule file, behind links inside and outside the tree, behind a link that is the rule file, 4 option sets (an open of a fifo = blocking = violation)"
 CHECKS["C19"]["bounds"]["thorough"] += "; deep chain of 18 levels, 4 option sets; the external cycle as quick"
 
 # The thorough tier contains everything the quick tier runs (same ids are replaced by their deeper variants).
